@@ -109,20 +109,33 @@ impl Sampler for Multinomial {
 
 /// Sample an item from a vector of probabilities.
 ///
-/// Returns the index of the selected item, or `None` if the vector is empty
-/// or sums to less than 1.
+/// Returns the index of the selected item, which always has a non-zero
+/// probability, or `None` if the vector contains no item with a probability
+/// greater than zero (eg. it is empty or contains NaNs).
 fn multinomial(rng: &mut fastrand::Rng, probs: &[f32]) -> Option<usize> {
+    // Target in the range [0, 1).
     let target = rng.f32();
 
     let mut cum_prob = 0.;
+
+    // Last item with a non-zero probability. This is selected if the
+    // probabilities sum to less than `target` due to rounding errors.
+    let mut last_nonzero = None;
+
     for (idx, &prob) in probs.iter().enumerate() {
+        if prob > 0. {
+            last_nonzero = Some(idx);
+        }
         cum_prob += prob;
-        if target <= cum_prob {
+
+        // The comparison is strict so that an item with zero probability is
+        // not selected when `target` is zero.
+        if target < cum_prob {
             return Some(idx);
         }
     }
 
-    None
+    last_nonzero
 }
 
 #[cfg(test)]
